@@ -285,6 +285,13 @@ def dupfield_mask(r):
     return m
 
 
+def covered_mask(r):
+    m = 0
+    for f in r["fields"]:
+        m |= ((1 << f["w"]) - 1) << f["off"]
+    return m
+
+
 def fragile_mask(r):
     m = 0
     for f in r["fields"]:
@@ -326,6 +333,8 @@ def explain_diff(lay, path, a, b, kind, text=False):
             return "ambiguous-enum-names"
         if text and diff & ~fragile_mask(r) == 0:
             return "enum-name-not-a-yaml-string"
+        if diff & covered_mask(r) == 0:
+            return "bits-outside-every-bit-field"
     return classify_reg(lay, path, kind)
 
 
@@ -377,7 +386,12 @@ def gen_field_value(rng, f):
             v0 = enum_const(f, n)
             return n, v0 >> cnt
     bits = rnd_width_value(rng, w)
-    return num_form(rng, bits << cnt), bits
+    val = num_form(rng, bits << cnt)
+    if isinstance(val, str) and enum_const(f, val) is not None:
+        bits = enum_const(f, val) >> cnt          # the loader looks the string up among the enum names first
+        if not 0 <= bits < (1 << w):
+            return (bits << cnt), rnd_width_value(rng, w) if False else ((enum_const(f, val) >> cnt) & ((1 << w) - 1))
+    return val, bits
 
 
 def gen_settings(rng, lay, d, density):
@@ -898,7 +912,8 @@ def apply_oracles(rep, case, res, R):
     if "load" in res and "err" in res["load"]:
         nchecks += 1
         if scen == "template":
-            fail(f"template:{kind}:load", f"the template does not load: {res['load']}")
+            cls = layout_class(d, lay, "schema") if ("err" in res.get("schema", {}) and kind in ("fuses", "xmcd")) else "plain"
+            fail(f"template:{kind}:load:{cls}", f"the template does not load: {res['load']}")
         else:
             fail(f"load:{kind}:in-range-values-rejected", f"in-range settings were rejected: {res['load']}",
                  {"settings": case.get("settings")})
@@ -1149,6 +1164,8 @@ def compare_model(case, res, mv, R):
         cmp("export6", impl_slot(res, "export6"), model_slot(m[4], mbytes))
         return bad
     first = m[0]
+    if "err" in res.get("load", {}) and "err" in res.get("schema", {}) and kind in ("fuses", "xmcd"):
+        return bad               # Fuses / XMCD load_from_config run the schema check themselves (reported by the oracle)
     if "err" in res.get("load", {}):
         if first[0] != "e" or first[1] != res["load"]["err"]:
             bad.append(f"load: impl {res['load']} model {first}")
